@@ -52,6 +52,12 @@ fn main() {
             let n = arg(&args, "--nslots").and_then(|x| x.parse().ok()).unwrap_or(2);
             huff::cmd_run(file, &ty, &out, n);
         }
+        "huffcols-run" => {
+            let seed = arg(&args, "--seed").and_then(|x| x.parse().ok()).unwrap_or(1);
+            let runs = arg(&args, "--runs").and_then(|x| x.parse().ok()).unwrap_or(100);
+            let out = arg(&args, "--out").expect("--out");
+            huff::cmd_cols(seed, runs, &out);
+        }
         "huff-gen" => {
             let seed = arg(&args, "--seed").and_then(|x| x.parse().ok()).unwrap_or(1);
             let count = arg(&args, "--count").and_then(|x| x.parse().ok()).unwrap_or(100);
@@ -67,7 +73,7 @@ fn main() {
             let file = args.get(2).expect("scenario file");
             let out = arg(&args, "--out").expect("--out");
             let n = arg(&args, "--nslots").and_then(|x| x.parse().ok()).unwrap_or(2);
-            dict::cmd_run(file, &out, n, args.iter().any(|a| a == "--as-str"));
+            dict::cmd_run(file, &out, n, args.iter().any(|a| a == "--as-str"), args.iter().any(|a| a == "--as-stack"));
         }
         "dict-gen" => {
             let seed = arg(&args, "--seed").and_then(|x| x.parse().ok()).unwrap_or(1);
